@@ -89,6 +89,34 @@ theorem C16_reshare (F : Perm) (fuel : Nat) (thr : Nat) (M R : Bytes) (shares : 
     ∀ x, share F fuel none c.thr c.M c.R x = share F fuel none thr M R x := by
   subst horig; exact ⟨rfl, fun _ => rfl⟩
 
+/-- **Shares of the recovered sharing combine with the originals** (the statement above without the
+`horig` hypothesis, and for actual share collections). Recover `c` from any qualifying collection
+`shares0` of honest shares of `(thr, M, R)`. Then EVERY collection in which each share is produced
+either by the original sharing or by a new sharing of the RECOVERED commune `c` (chosen per share
+by `fromRecovered`), at points holding `thr` distinct values — for example `thr - 1` originals and
+one new share — recovers `c` again. -/
+theorem C16_reshare_combines (F : Perm) (fuel : Nat) (thr : Nat) (ht : 1 ≤ thr) (M R : Bytes)
+    (xs0 : List Nat) (hx0 : ∀ x ∈ xs0, x < Fp.p) (hc0 : thr ≤ xs0.toFinset.card)
+    (shares0 : List Adss.Share) (hlen0 : shares0.length = xs0.length)
+    (hsh0 : ∀ i (h1 : i < xs0.length) (h2 : i < shares0.length),
+      share F fuel none thr M R xs0[i] = some (.ok shares0[i]))
+    (c : Commune) (hrec : recover F shares0 = .ok c)
+    (xs : List Nat) (hx : ∀ x ∈ xs, x < Fp.p) (hc : thr ≤ xs.toFinset.card)
+    (fromRecovered : Nat → Bool)
+    (shares : List Adss.Share) (hlen : shares.length = xs.length)
+    (hsh : ∀ i (h1 : i < xs.length) (h2 : i < shares.length),
+      (if fromRecovered i then share F fuel none c.thr c.M c.R xs[i]
+       else share F fuel none thr M R xs[i]) = some (.ok shares[i])) :
+    c = ⟨thr, M, R⟩ ∧ recover F shares = .ok c := by
+  have h0 := C16_recover F fuel thr ht M R xs0 hx0 hc0 shares0 hlen0 hsh0
+  rw [h0] at hrec
+  injection hrec with hrec
+  subst hrec
+  refine ⟨rfl, C16_recover F fuel thr ht M R xs hx hc shares hlen ?_⟩
+  intro i h1 h2
+  have := hsh i h1 h2
+  simpa using this
+
 /-- **Threshold 0 never recovers**, whatever the shares are. -/
 theorem C16_threshold_zero (F : Perm) (s0 : Adss.Share) (rest : List Adss.Share) (h0 : s0.thr = 0) :
     ∃ k, recover F (s0 :: rest) = .err k := by
